@@ -12,6 +12,10 @@ def clip(s, n):
     return s if len(s) <= n else s[: n - 1] + "…"
 
 
+import sys
+rows = []
+_print = print
+print = lambda x: rows.append(x)
 print("| seeded change | property | what it does | needs to manifest | caught by (exit) |")
 print("|---|---|---|---|---|")
 for d in sorted(glob.glob(os.path.join(root, "seeded", "*", ""))):
@@ -27,3 +31,14 @@ for d in sorted(glob.glob(os.path.join(root, "seeded", "*", ""))):
         by += " **missed**"
     print("| `%s` | %s | %s | %s | %s |" % (name, m.get("property", "?"), clip(m.get("summary", ""), 230),
                                           clip(m.get("needs_to_manifest", ""), 170), by))
+
+print = _print
+if "--write" in sys.argv:
+    dp = os.path.join(root, "DESIGN.md")
+    d = open(dp).read()
+    a, b = "<!-- seeded-table-begin -->", "<!-- seeded-table-end -->"
+    i, j = d.index(a) + len(a), d.index(b)
+    d = d[:i] + "\n" + "\n".join(rows) + "\n" + d[j:]
+    open(dp, "w").write(d)
+else:
+    print("\n".join(rows))
